@@ -388,6 +388,33 @@ impl<T> DequeFacade<T> {
             .unlink_and_drop(std::ptr::NonNull::new_unchecked(node as *mut DeqNode<T>))
     }
 
+    /// Unlinks `node` without freeing it; it stays allocated and owned by the caller.
+    ///
+    /// # Safety
+    /// `node` must be linked in this deque.
+    pub unsafe fn unlink(&mut self, node: usize) {
+        self.deq
+            .unlink(std::ptr::NonNull::new_unchecked(node as *mut DeqNode<T>))
+    }
+
+    /// Links a node previously taken out with `unlink` at the back again.
+    ///
+    /// # Safety
+    /// `node` must have been unlinked from this deque and not freed.
+    pub unsafe fn push_back_unlinked(&mut self, node: usize) -> usize {
+        self.deq
+            .push_back(Box::from_raw(node as *mut DeqNode<T>))
+            .as_ptr() as usize
+    }
+
+    /// Frees a node previously taken out with `unlink` and returns its element.
+    ///
+    /// # Safety
+    /// `node` must have been unlinked and not freed or linked again.
+    pub unsafe fn free_unlinked(node: usize) -> T {
+        Box::from_raw(node as *mut DeqNode<T>).element
+    }
+
     /// One step of the cursor iterator (`impl Iterator for &mut Deque`).
     pub fn cursor_next(&mut self) -> Option<&T> {
         let mut d = &mut self.deq;
